@@ -3,6 +3,7 @@ import Duckling.Generated.Effects
 import Duckling.Lemmas.ValNoCrash
 import Duckling.Lemmas.NoCrash
 import Duckling.Lemmas.EvalNoCrash
+import Duckling.Lemmas.ParseNoBlank
 /-
   C09 — every failure is a compile error, never a crash.
 
@@ -24,6 +25,12 @@ import Duckling.Lemmas.EvalNoCrash
   * `C09_interpreter_crash_only_blank_line`  for EVERY program tree, depth, context and state, the only non-compile exception
                                    the interpreter can exhibit is the IndexError of a blank command line — which the parser never
                                    produces from text (`C03_blank_ignored`); a walk over every function of the interpreter.
+  * `C09_parser_output_nonblank`  every command line of the parser's output, at every depth, is non-blank (any text, unit, verbatim region);
+  * `C09_exec_never_crashes`      for code whose every line is non-blank — the program, the bodies of the functions in the environment —
+                                   and ANY file system, depth, context and state, the interpreter never crashes (hereditary walk:
+                                   imported files are parser output, function bodies are blocks of such code);
+  * `C09_compile_never_crashes`   **`Compiler.compile` of ANY text (or list of lines), ANY options, ANY file system: the result is
+                                   output, a compile error, or out of the model — never a crash.**
   Outside the theorems: exceptions with no modelled site (host MemoryError/RecursionError — the known findings D13/D12/D19)
   and inputs outside the model's domain are reached by the grammar-aware fuzzing only — `partial`.
 -/
@@ -68,6 +75,42 @@ theorem C09_evaluator_never_crashes (vars : VarEnv) (s : Str) (x : String) : tok
 theorem C09_interpreter_crash_only_blank_line (d : Nat) (nodes : List Node) (ctx : Ctx) (st : St) (x : String)
     (h : exec d nodes ctx st = .crash x) : x = "IndexError" :=
   (exec_crash_only_index evalSafe d nodes ctx st).out x h
+
+theorem C09_parser_output_nonblank (lines : List Str) (nodes : List Node) (h : parseLines lines = .ok nodes) :
+    allLinesL nonBlank nodes = true := parseLines_noBlank lines nodes h
+
+/-- no blank line anywhere in the code that can run ⇒ no crash at all -/
+theorem C09_exec_never_crashes (d : Nat) (nodes : List Node) (ctx : Ctx) (st : St) (x : String)
+    (hnodes : allLinesL nonBlank nodes = true) (hst : StOk nonBlank st) : exec d nodes ctx st ≠ .crash x := by
+  intro h
+  have h1 := (exec_hereditary hspec_nonBlank d nodes ctx st hnodes hst (fsOk_nonBlank ctx.fs)).ni x h
+  exact h1 (C09_interpreter_crash_only_blank_line d nodes ctx st x h)
+
+theorem initEnv_ok : StOk nonBlank { env := initEnv } := by
+  intro c hc
+  unfold initEnv at hc
+  split at hc <;> simp [St.codes] at hc
+
+/-- **compiling any text never crashes** (any options, any file system, with or without an entry file) -/
+theorem C09_compile_never_crashes (opts : Opts) (fs : FS) (file : Option Path) (src : Source)
+    (htext : (∃ t, src = .text t) ∨ (∃ ls, src = .lines ls)) (x : String) : compile opts fs file src ≠ .crash x := by
+  have hprep : ∀ nodes, prepare src = .ok nodes → allLinesL nonBlank nodes = true := by
+    intro nodes hn
+    rcases htext with ⟨t, rfl⟩ | ⟨ls, rfl⟩
+    · exact parseLines_noBlank _ nodes hn
+    · exact parseLines_noBlank _ nodes hn
+  unfold compile
+  split
+  · simp
+  · simp
+  · rename_i nodes hn
+    simp only []
+    split
+    · simp
+    · simp
+    · rename_i e he
+      exact absurd he (C09_exec_never_crashes _ _ _ _ e (hprep nodes hn) initEnv_ok)
+    · simp
 
 /-- non-vacuity: a well-shaped number text exists and is accepted -/
 example : GoodNumText "-12.5".toList :=
